@@ -78,6 +78,8 @@ CHECKS = {
          "Reference relation (DESIGN appendix A.1) is the trusted side; open cells carry allowed sets. ClientHello with Some(empty) session id is outside the generated domain.",
          "3/C08"),
 }
+STRUCT_PROPS = {"C02", "C03", "C04", "C05", "C06", "C07", "C08", "C09", "C10", "C13", "C14", "C15", "C16"}
+SCALE = {"C01": 2, "C06": 4, "C07": 4, "C10": 4, "C13": 6}
 PENDING = {}  # id -> reason (properties not claimed)
 
 def main():
@@ -88,6 +90,10 @@ def main():
         if pid not in CHECKS:
             continue
         tech, text, note, ref = CHECKS[pid]
+        if pid in STRUCT_PROPS:
+            tech += "; thorough tier adds a coverage-guided structured workload (libFuzzer + ASan driving the harness's own generators, same native oracles) and scales every randomized family x" + str(SCALE.get(pid, 10))
+        elif pid in ("C11", "C12", "C17"):
+            tech += "; the sweeps are exhaustive, so both tiers explore the same (complete) domains"
         checks.append({
             "property_id": pid,
             "quick_cmd": f"./check {pid} quick",
